@@ -241,6 +241,6 @@ def extra_stages(tier, seed, scratch, total, notes):
     t = runner.run_units_with(__name__, sub, binary, os.path.join(scratch, "asan"), seed + 1000, 'quick', env=env)
     notes.append({"stage": "asan", "build": note, "units": len(sub), "executions": t.evaluations,
                   "sanitizer_reports": sum(1 for v in t.violations if 'Sanitizer' in v["sig"][2]),
-                  "statement": "no AddressSanitizer report on these executions (not a proof of memory safety)"})
+                  "statement": "no AddressSanitizer report on these executions (not a proof of memory safety)" if not any('Sanitizer' in v["sig"][2] for v in t.violations) else "AddressSanitizer reported (see violations)"})
     t.observed = {"asan:" + k: v for k, v in t.observed.items() if not isinstance(v, set)}
     total.merge(t)
